@@ -9,7 +9,12 @@ src = f"/tmp/{os.environ.get('SEEDP','seed')}-{pid}-out"
 dst = f"/verif/seeded/{pid}-{m}"
 os.makedirs(dst, exist_ok=True)
 shutil.copy(f"{src}/{m}.diff", f"{dst}/patch.diff")
-shutil.copy(f"{src}/{m}_demo.diff", f"{dst}/demo.diff")
+if os.path.isdir(f"{src}/{m}_demo"):
+    # demonstration is a script directory (daemon-level seeds): RUN.sh exits 0 when the property holds
+    shutil.rmtree(f"{dst}/demo", ignore_errors=True)
+    shutil.copytree(f"{src}/{m}_demo", f"{dst}/demo", ignore=shutil.ignore_patterns("work", "__pycache__", "*.log"))
+else:
+    shutil.copy(f"{src}/{m}_demo.diff", f"{dst}/demo.diff")
 shutil.copy(f"{src}/{m}.md", f"{dst}/notes.md")
 confirm = json.load(open(f"{src}/{m}.confirm.json"))
 ok = (confirm["clean_with_demo"]["failed"] == 0 and confirm["mutant_build_rc"] == 0 and
